@@ -66,6 +66,10 @@ def solve(formula, display=True, log=False, params={}):
                 solver.Add(left == const[j])
             else:
                 solver.Add(left <= const[j])
+        else:
+            # a row without stored entries still reads 0 == const or 0 <= const
+            lower = const[j] if sense[j] == 1 else -solver.infinity()
+            solver.RowConstraint(lower, const[j], '')
 
     if display:
         print('Being solved by OR-Tools...', flush=True)
